@@ -85,7 +85,7 @@ def rule_update_conf(ctx: RuleContext, p: Program, rid: str) -> None:
 
 
 def run(ctx: RuleContext, p: Program) -> None:
-    rule_tokset_conf(ctx, p, 'TOKSET-CONF')
-    rule_update_conf(ctx, p, 'UPDATE-CONF')
+    ctx.try_rule(rule_tokset_conf, p, 'TOKSET-CONF')
+    ctx.try_rule(rule_update_conf, p, 'UPDATE-CONF')
     ctx.not_decided += ['that the printed text equals the input with exactly that span replaced (runtime equality; follows from C01 + these)']
     ctx.assumptions += ['primitive: Token._update_raw_text is the single text-changing routine (OWN-TEXT, C08)']
